@@ -44,22 +44,25 @@ theorem readSeverity_severityToProto {S : Type} (s : Severity S) (h : SeverityOK
   obtain ⟨e, v2, v3⟩ := s
   simp only [readSeverity, severityToProto, map_cvssToProto, readSevEnum_severityEnumToProto e h.1 h.2]
 
-/-- what one finding needs for its record to carry it completely (with the CURRENT code: a severity, and no detector names) -/
+/-- what one finding needs for its record to carry it completely: advisory with id, representable enum values -/
 def FindingOK {S P : Type} (f : Finding S P) : Prop :=
-  ∃ a id s, f.adv = some a ∧ a.id = some id ∧ a.sev = some s ∧ AdvisoryOK a ∧ f.detectors = []
+  ∃ a id, f.adv = some a ∧ a.id = some id ∧ AdvisoryOK a
 
 theorem findingToProto_lossless {S P PP : Type} (pk : P → PP) (f : Finding S P) (h : FindingOK f) :
     ∃ p, findingToProto pk f = .ok p ∧ readFinding p = genericFinding pk f := by
-  obtain ⟨a, id, s, ha, hid, hs, hok, hd⟩ := h
+  obtain ⟨a, id, ha, hid, hok⟩ := h
   obtain ⟨adv, target, extra, dets⟩ := f
   obtain ⟨aid, typ, title, desc, recm, sev⟩ := a
-  simp only at ha hid hs hd
-  subst ha hid hs hd
+  simp only at ha hid
+  subst ha hid
   obtain ⟨h0, h2, hsev⟩ := hok
   simp only at h0 h2 hsev
   refine ⟨_, rfl, ?_⟩
-  simp only [readFinding, genericFinding, Option.map_some, readType_typeEnumToProto typ h0 h2,
-    readSeverity_severityToProto s (hsev s rfl)]
+  have hs : (sev.map severityToProto).map readSeverity = sev := by
+    cases sev with
+    | none => rfl
+    | some s => simp only [Option.map_some, readSeverity_severityToProto s (hsev s rfl)]
+  simp only [readFinding, genericFinding, readType_typeEnumToProto typ h0 h2, hs]
 
 theorem findingsLoop_lossless {S P PP : Type} (pk : P → PP) (fs : List (Finding S P)) (acc : List (PFinding S PP))
     (h : ∀ f ∈ fs, FindingOK f) :
@@ -73,17 +76,11 @@ theorem findingsLoop_lossless {S P PP : Type} (pk : P → PP) (fs : List (Findin
     · simp only [findingsLoop, hp, hps, List.append_assoc, List.singleton_append]
     · simp only [List.map_cons, hr, hm]
 
-/-- the panic-freedom hypothesis of the CURRENT code: a finding with advisory and id also has a severity -/
-def NoNilSeverity {S P : Type} (fs : List (Finding S P)) : Prop :=
-  ∀ f ∈ fs, ∀ a, f.adv = some a → a.id ≠ none → a.sev ≠ none
-
-theorem findingsLoop_outcome {S P PP : Type} (pk : P → PP) (fs : List (Finding S P)) (acc : List (PFinding S PP))
-    (h : NoNilSeverity fs) : (findingsLoop pk fs acc).erase = specOutcome fs := by
+theorem findingsLoop_outcome {S P PP : Type} (pk : P → PP) (fs : List (Finding S P)) (acc : List (PFinding S PP)) :
+    (findingsLoop pk fs acc).erase = specOutcome fs := by
   induction fs generalizing acc with
   | nil => rfl
   | cons f rest ih =>
-    have hrest : NoNilSeverity rest := fun g hg => h g (List.mem_cons_of_mem _ hg)
-    have hf := h f (List.mem_cons_self ..)
     obtain ⟨adv, target, extra, dets⟩ := f
     cases adv with
     | none => rfl
@@ -92,10 +89,18 @@ theorem findingsLoop_outcome {S P PP : Type} (pk : P → PP) (fs : List (Finding
       cases aid with
       | none => rfl
       | some id =>
-        cases sev with
-        | none => exact absurd rfl (hf _ rfl (by simp))
-        | some s =>
-          simp only [findingsLoop, findingToProto, specOutcome]
-          exact ih _ hrest
+        simp only [findingsLoop, findingToProto, specOutcome]
+        exact ih _
+
+theorem specOutcome_ne_panic {S P : Type} (fs : List (Finding S P)) : specOutcome fs ≠ .panic := by
+  induction fs with
+  | nil => intro h; cases h
+  | cons f rest ih =>
+    unfold specOutcome
+    split
+    · intro h; cases h
+    · split
+      · intro h; cases h
+      · exact ih
 
 end Scalibr.ProtoResult
